@@ -1,6 +1,7 @@
 package bcheck
 
 import (
+	"errors"
 	"crypto/tls"
 	"fmt"
 	"os"
@@ -30,7 +31,7 @@ func init() {
 	}
 	Registry["C15"] = &Check{
 		Scenarios: c15Scenarios,
-		Rule: "Server.Serve with three connections plus a fourth offered after the fault; accept script: every placement of <=2 temporary accept errors among the offers; connection A suffers one fault from {handler panic, undecodable header with trailing bytes, disconnect in the middle of a message} at every position 1..3 of its three-message sequence; connections B, C and D exchange two request/answer pairs each with bodies that name their connection (the handler checks that the body belongs to the header); after A's fault the application registers a further handler on the running ServeMux, and the first handler of D also writes to A's (failed) diam.Conn, which must simply return an error; C and D are offered only after that, and C's first message is held inside its body until D has been served completely (so a read buffer shared across connections is overwritten); every ordering of environment steps, timers and blocking hand-overs at preemption bound 0 (quick: each accept placement with three of the nine fault/position pairs; thorough: the full product, and preemption bound 1 for the placement without accept errors); back-off sleeps run on the virtual clock. Four scenarios put 9, 10, 12 and 40 consecutive temporary accept errors between two connections. One scenario accepts a connection as TLS whose peer sends 7 bytes of a handshake record and falls silent (later connections must be accepted and served). One scenario accepts a connection as TLS while its peer sends plain Diameter (the handshake fails: the transport must be closed, the other connection served). Three scenarios (bound 1 / 2) put the fault {panic, undecodable header, cut} on a connection whose peer has stopped reading while the handler of a healthy connection is blocked inside a Write to it: the faulty transport is closed all the same, the blocked handler is released with an error and its connection goes on being served. Three further scenarios (preemption bound 1, thorough 2) put the fault at the third message of a connection whose first handler has requested CloseNotify, so that the notifier goroutine is running when the connection fails.",
+		Rule: "Server.Serve with three connections plus a fourth offered after the fault; accept script: every placement of <=2 temporary accept errors among the offers; connection A suffers one fault from {handler panic, undecodable header with trailing bytes, disconnect in the middle of a message} at every position 1..3 of its three-message sequence; connections B, C and D exchange two request/answer pairs each with bodies that name their connection (the handler checks that the body belongs to the header); after A's fault the application registers a further handler on the running ServeMux, and the first handler of D also writes to A's (failed) diam.Conn, which must simply return an error; C and D are offered only after that, and C's first message is held inside its body until D has been served completely (so a read buffer shared across connections is overwritten); every ordering of environment steps, timers and blocking hand-overs at preemption bound 0 (quick: each accept placement with three of the nine fault/position pairs; thorough: the full product, and preemption bound 1 for the placement without accept errors); back-off sleeps run on the virtual clock. Four scenarios put 9, 10, 12 and 40 consecutive temporary accept errors between two connections. One scenario accepts a connection as TLS whose peer sends 7 bytes of a handshake record and falls silent (later connections must be accepted and served). One scenario accepts a connection as TLS while its peer sends plain Diameter (the handshake fails: the transport must be closed, the other connection served). Three scenarios (bound 1 / 2) put the fault {panic, undecodable header, cut} on a connection whose peer has stopped reading while the handler of a healthy connection is blocked inside a Write to it: the faulty transport is closed all the same, the blocked handler is released with an error and its connection goes on being served. Five scenarios (bound 0 / 1) make the faulty connection a multistream (SCTP) association {handler panic, undecodable header, association ending inside a header / inside a body by EOF / by reset}. A runtime fatal error (unlock of an unlocked mutex) is modelled as unrecoverable and reported. Three further scenarios (preemption bound 1, thorough 2) put the fault at the third message of a connection whose first handler has requested CloseNotify, so that the notifier goroutine is running when the connection fails.",
 		Assume: []string{"data-race freedom between visible operations (audited separately with -race)"},
 		QuickBudget: 150, ThoroughBudget: 2400,
 	}
@@ -560,6 +561,13 @@ func c15Scenarios(tier string) []*Scenario {
 		}
 		out = append(out, c15FaultWhileWriteStuck(fault, b))
 	}
+	for _, fault := range []string{"panic", "garbage", "cut-header", "cut-body", "reset-body"} {
+		b := 0
+		if tier == "thorough" {
+			b = 1
+		}
+		out = append(out, c15MultistreamFault(fault, b))
+	}
 	// a long burst of temporary accept errors (the back-off reaches and stays at its ceiling), with a
 	// healthy connection before and one after
 	for _, burst := range []int{9, 10, 12, 40} {
@@ -865,4 +873,124 @@ func c15FaultWhileWriteStuck(fault string, bound int) *Scenario {
 	}
 	return &Scenario{Name: "faults/while-another-handler-is-stuck-writing-to-it/" + fault, Body: body, Check: check, Bound: bound, Horizon: 10 * time.Second,
 		Outcome: func(s *vs.Sched) string { return fmt.Sprintf("handledB=%v pushErr=%v", c15ws.handledB, c15ws.pushErr) }}
+}
+
+// c15MultistreamFault: the faulty connection A is a multistream (SCTP) association accepted by the
+// server next to the plain connection B; A is served one request, then suffers its fault - a
+// handler panic, an undecodable header, or the association ending inside the header / inside the
+// body of its next message (the read paths a stream-oriented connection does not have). A must be
+// closed, B must get both its answers, a connection offered afterwards must be served, and no
+// goroutine may die of an unrecoverable error.
+var c15ms struct {
+	be       *vnet.SCTP
+	b, c     *vnet.Conn
+	handledA int
+	lis      *vnet.Listener
+	served   bool
+	reports  int
+}
+
+func c15MultistreamFault(fault string, bound int) *Scenario {
+	body := func() {
+		st := &c15ms
+		st.handledA, st.served, st.reports = 0, false, 0
+		be := vnet.NewSCTP("A")
+		b, c := vnet.NewConn("B"), vnet.NewConn("C")
+		b.Pieces, c.Pieces = 1, 1
+		st.be, st.b, st.c = be, b, c
+		lis := vnet.NewListener()
+		st.lis = lis
+		mux := diam.NewServeMux()
+		mux.HandleFunc("ALL", func(cn diam.Conn, m *diam.Message) {
+			if m.Header.HopByHopID == 1 {
+				st.handledA++
+				if fault == "panic" && st.handledA == 2 {
+					vs.Event("handler on A panics")
+					panic("handler panic (injected)")
+				}
+			}
+			m.Answer(2001).WriteTo(cn)
+		})
+		if fault == "garbage" {
+			vs.GoNamed("reports", true, func() {
+				for {
+					if _, ok := mux.ErrorReports().Recv2(); !ok {
+						return
+					}
+					st.reports++
+				}
+			})
+		}
+		srv := &diam.Server{Handler: mux, Dict: dict.Default}
+		lis.Offer(vnet.AcceptItem{NetConn: diam.NewSCTPConnBackend(be)})
+		lis.Offer(vnet.AcceptItem{Conn: b})
+		vs.GoNamed("serve", false, func() { srv.Serve(lis); st.served = true })
+		vs.GoNamed("peerA", true, func() {
+			be.Deliver(3, srvReq(0, 0))
+			vs.BlockObj("wait-A-answered", be, func() bool { return len(be.Writes) > 0 || be.Closed })
+			m := srvReq(0, 1)
+			switch fault {
+			case "panic":
+				be.Deliver(5, m)
+			case "garbage":
+				bad := make([]byte, 20)
+				bad[0], bad[3] = 1, 60
+				bad[5], bad[6], bad[7] = 0xff, 0xff, 0xfe
+				be.Deliver(5, append(bad, ghost40(1)...))
+			case "cut-header":
+				be.Deliver(5, m[:10])
+				vs.Yield("env")
+				be.PeerEOF()
+			case "cut-body":
+				be.Deliver(5, m[:28])
+				vs.Yield("env")
+				be.PeerEOF()
+			case "reset-body":
+				be.Deliver(5, m[:28])
+				vs.Yield("env")
+				be.PeerErr(errors.New("connection reset by peer"))
+			}
+		})
+		vs.GoNamed("peerB", true, func() {
+			b.Deliver(srvReq(1, 0))
+			vs.BlockObj("wait-A-gone", be, func() bool { return be.Closed || be.DeadReads > 8 })
+			b.Deliver(srvReq(1, 1))
+			c.Deliver(srvReq(2, 0))
+			lis.Offer(vnet.AcceptItem{Conn: c})
+		})
+	}
+	check := func(s *vs.Sched) string {
+		st := &c15ms
+		var v []string
+		for _, p := range s.Panics() {
+			v = append(v, "panic escaped / process aborted: "+p)
+		}
+		if !st.be.Closed {
+			v = append(v, "the faulty multistream connection was not closed ("+fault+")")
+		}
+		if st.be.DeadReads > 8 {
+			v = append(v, "the reader of the faulty association keeps polling it after it ended")
+		}
+		if st.handledA < 1 {
+			v = append(v, "the first request of A was not handled")
+		}
+		if got := fmt.Sprint(answersOn(st.b)); got != "[1 2]" {
+			v = append(v, "healthy connection B received answers "+got+", expected [1 2]")
+		}
+		if got := fmt.Sprint(answersOn(st.c)); got != "[1]" {
+			v = append(v, "connection C, offered after the fault, received answers "+got+", expected [1]")
+		}
+		if st.b.Closed || st.c.Closed {
+			v = append(v, "a healthy connection was closed")
+		}
+		if fault == "garbage" && st.reports == 0 {
+			v = append(v, "undecodable input: no error report was offered")
+		}
+		if st.served {
+			v = append(v, "Serve returned")
+		}
+		return strings.Join(v, " | ")
+	}
+	return &Scenario{Name: "faults/multistream-connection/" + fault, Body: body, Check: check, Bound: bound, Horizon: 10 * time.Second,
+		Outcome: func(s *vs.Sched) string { return fmt.Sprintf("handledA=%d reports=%d B=%v", c15ms.handledA, c15ms.reports, answersOn(c15ms.b)) }}
 }
